@@ -339,6 +339,9 @@ func (t *fnTrans) varLen(v *types.Var) (int64, bool) {
 }
 
 func (t *fnTrans) indexExpr(x *ast.IndexExpr) string {
+	if s, ok := t.mapLookup(x); ok {
+		return s
+	}
 	xt := t.typeOf(x.X)
 	var elem types.Type
 	switch u := under(xt).(type) {
